@@ -5,6 +5,7 @@
    max-answer.  [wire_name n] = n is an uncompressed wire name (labels of 1..63 bytes, <= 255). *)
 From DnsV Require Import Base.Bytes Model.Store Model.LookupV1 Model.LookupV2 Model.Serve.
 From DnsV Require Import Spec.Answer Spec.Rows Proofs.ZoneCut Proofs.Serve Proofs.NoPanic Proofs.Shape Proofs.Reverse Proofs.Size.
+From DnsV Require Import Proofs.Compile Proofs.NoPanicV2Names Proofs.NoPanicV2Walk Proofs.NoPanicV2.
 Open Scope N_scope.
 
 (* CDB and RocksDB with v1 keys (the label-by-label reader): no panic and no fuel exhaustion
@@ -16,11 +17,51 @@ Theorem C13_no_panic_v1 : forall b st q locr ecs max,
 Proof. exact serve_no_panic_v1. Qed.
 Print Assumptions C13_no_panic_v1.
 
-(* C13_no_panic_v2_partial.  For the closest-key reader (RocksDB v2 keys) freedom from panics is
-   NOT proved as a whole (it needs the shape of every key SeekForPrev can land on; the differential
-   run covers it on root-zone, root-delegation, empty and generated databases).  Proved: the part of
-   that reader whose indices are Go bytes, reverseZoneNameToBuffer, neither wraps nor panics on a
-   wire-valid name and yields the reversed packed name *)
+(* RocksDB with v2 keys (the closest-key reader of db/answer_sorted.go): no panic and no fuel
+   exhaustion for every database that satisfies the DECIDABLE guard [wf_store_v2] (Proofs/NoPanicV2Walk):
+   every key occurs once, and every key in the range of the resource-record marker "\000o" is
+   marker ++ (non-zero length byte, that many bytes)* ++ \000 ++ two location bytes, or has a third
+   byte >= 64 (dnsdata.FeaturesKey "\000o_features", which sorts behind every probe of a wire-valid
+   name); keys outside the marker range and ALL rows are unconstrained (callback panics are
+   recovered by rdb.ForEach).  Every wire-valid query name; every client location of two bytes
+   ([loc_wf]: the Go type of a location id is [2]byte).  The per-request cache is part of the model *)
+Theorem C13_no_panic_v2 : forall st q locr ecs max,
+  wf_store_v2 st = true -> wire_name (q_name q) = true -> loc_wf locr ->
+  serve RDB2 st q locr ecs max <> OPanic /\ serve RDB2 st q locr ecs max <> OFuel.
+Proof. exact serve_no_panic_v2. Qed.
+Print Assumptions C13_no_panic_v2.
+
+(* the guard is what the compiler emits: the v2 database of any records whose owner labels are
+   1..63 bytes long and whose location tags are two bytes (Proofs/ZoneCut.wf_recs; in fact any
+   non-empty labels: Proofs/NoPanicV2.compiled_store_wf) satisfies it, and so does every sorted
+   dump whose keys pass [key_ok] (what the harness hands over) *)
+Theorem C13_compiled_store_wf : forall recs, wf_recs recs -> wf_store_v2 (store_of (rows_of_v2 recs)) = true.
+Proof. exact wf_recs_store_wf. Qed.
+Print Assumptions C13_compiled_store_wf.
+Theorem C13_sorted_dump_wf : forall st, sorted_keys st = true ->
+  forallb (fun kv => key_ok (fst kv)) st = true -> wf_store_v2 st = true.
+Proof. exact sorted_store_wf. Qed.
+Print Assumptions C13_sorted_dump_wf.
+
+(* C13_no_panic_v2_refuted: without the guard the v2 reader DOES panic.  The compiler validates no
+   owner names (dnsdata.putreverseddom writes byte(len(label)) and then the whole label), so a data
+   file with a label longer than 255 bytes - outside the well-formed data files of DESIGN section 10 -
+   compiles to a key whose name part is not a well-formed reversed name.  Witness: owner label
+   "com" ++ \000 ++ 255 more bytes (259 bytes; key = marker ++ \003 com \000 ...), query com. A from a
+   client in a location that sorts above the key's continuation: findCommonLongestPrefix returns
+   len(reversed query name), the next round of sortedDataReader.find slices the key buffer beyond its
+   capacity.  Reproduced on the real server (data file: Mcom:m1 / %ab,10.0.0.0/8,m1 /
+   +com\000111..1:1.2.3.4:60, client 10.0.0.1): runtime error: slice bounds out of range [:10] with
+   capacity 9; CDB and RocksDB-v1 answer REFUSED *)
+Theorem C13_no_panic_v2_refuted :
+  exists st q locr ecs max,
+    sorted_keys st = true /\ wire_name (q_name q) = true /\ loc_wf locr /\
+    wf_store_v2 st = false /\ serve RDB2 st q locr ecs max = OPanic.
+Proof. exact no_panic_v2_needs_guard. Qed.
+Print Assumptions C13_no_panic_v2_refuted.
+
+(* the part of that reader whose indices are Go bytes, reverseZoneNameToBuffer, neither wraps nor
+   panics on a wire-valid name and yields the reversed packed name *)
 Theorem C13_reverse_zone_name_no_panic : forall n, wf_name n -> nlen (pack n) <= 255 ->
   reverse_zone_name (pack n) = Val (rpack n).
 Proof. exact reverse_zone_name_pack. Qed.
@@ -85,3 +126,29 @@ Example C13_example :
               [IRR (mkRR [0] 2 1 60 [1; 97; 0])] [] (Some None)).
 Proof. vm_compute. split; reflexivity. Qed.
 Print Assumptions C13_example.
+
+(* the hypotheses of C13_no_panic_v2 are satisfiable by a non-trivial compiled database: the v2 dump
+   of corpus case C01/upper-target (zone example.com with NS, MX, a delegation and glue, plus the
+   features key), keys as the real compiler wrote them; a located client asks below the delegation *)
+Example C13_example_v2 :
+  let e := [7; 101; 120; 97; 109; 112; 108; 101] in
+  let k (l : bytes) := [0; 111; 3; 99; 111; 109] ++ e ++ l ++ [0; 0; 0] in
+  let row t := [0; t; 61; 0; 0; 0; 60; 0; 0; 0; 0; 0; 0; 0; 0] in
+  let st := [(k [], [row 6 ++ [3; 110; 115; 49; 0; 1; 104; 0; 0; 0; 0; 1; 0; 0; 0; 2; 0; 0; 0; 3; 0; 0; 0; 4; 0; 0; 0; 5];
+                     row 2 ++ [3; 110; 115; 49] ++ e ++ [3; 99; 111; 109; 0]]);
+             (k [3; 110; 115; 49], [row 1 ++ [0; 0; 0; 1; 192; 0; 2; 1]]);
+             (k [3; 119; 119; 119], [row 15 ++ [2; 113; 4; 77; 97; 105; 108] ++ e ++ [3; 99; 111; 109; 0]]);
+             (k [4; 109; 97; 105; 108], [row 1 ++ [0; 0; 0; 1; 192; 0; 2; 7]]);
+             (k [5; 100; 101; 108; 101; 103], [row 2 ++ [2; 78; 83; 5; 100; 101; 108; 101; 103] ++ e ++ [3; 99; 111; 109; 0]]);
+             (k [5; 100; 101; 108; 101; 103; 2; 110; 115], [row 1 ++ [0; 0; 0; 1; 192; 0; 2; 9]]);
+             ([0; 111; 95; 102; 101; 97; 116; 117; 114; 101; 115], [[0; 0; 0; 2]])] in
+  let q := mkQ 1 ([3; 119; 119; 119; 5; 100; 101; 108; 101; 103] ++ e ++ [3; 99; 111; 109; 0]) 1 1 None in
+  wf_store_v2 st = true /\ sorted_keys st = true /\ wire_name (q_name q) = true /\ loc_wf (LocOk [97; 98]) /\
+  serve RDB2 st q (LocOk [97; 98]) None 1 =
+    OReply (mkResp 1 (Some (q_name q, 1, 1)) 0 false []
+              [IRR (mkRR ([5; 100; 101; 108; 101; 103] ++ e ++ [3; 99; 111; 109; 0]) 2 1 60
+                         ([2; 78; 83; 5; 100; 101; 108; 101; 103] ++ e ++ [3; 99; 111; 109; 0]))]
+              [IPick ([2; 78; 83; 5; 100; 101; 108; 101; 103] ++ e ++ [3; 99; 111; 109; 0]) 1 1 [(60, 1, [192; 0; 2; 9])] 1]
+              None).
+Proof. vm_compute. repeat split; reflexivity. Qed.
+Print Assumptions C13_example_v2.
